@@ -3,6 +3,7 @@ package main
 import (
 	"fmt"
 	"math"
+	"math/rand"
 	"sort"
 	"strings"
 	"time"
@@ -28,10 +29,11 @@ type TRule struct {
 }
 
 type TCase struct {
-	ID     any     `json:"id"`
-	TFacts [][]any `json:"tfacts"` // [[atom, [lo, hi]] ...]
-	Now    int64   `json:"now"`
-	Rules  []TRule `json:"rules"`
+	Overlap bool    `json:"overlap,omitempty"`
+	ID      any     `json:"id"`
+	TFacts  [][]any `json:"tfacts"` // [[atom, [lo, hi]] ...]
+	Now     int64   `json:"now"`
+	Rules   []TRule `json:"rules"`
 }
 
 type TVariant struct {
@@ -43,6 +45,7 @@ type TVariant struct {
 }
 
 type TResult struct {
+	Overlap  bool       `json:"overlap,omitempty"`
 	ID       any        `json:"id"`
 	TFacts   [][]any    `json:"tfacts"`
 	Now      int64      `json:"now"`
@@ -210,8 +213,12 @@ func runTCase(c TCase, text string, storeKind string, determ bool) (v TVariant) 
 	return
 }
 
-func runTEval(c TCase, repeat int) TResult {
-	res := TResult{ID: c.ID, TFacts: c.TFacts, Now: c.Now, Rules: c.Rules}
+func runTEval(c TCase, repeat int) TResult { return runTEvalPerms(c, repeat, 0) }
+
+// runTEvalPerms additionally runs perms pseudo-random permutations of the clauses and base facts
+// (drawn from the case text, so that a run is reproducible).
+func runTEvalPerms(c TCase, repeat, perms int) TResult {
+	res := TResult{ID: c.ID, TFacts: c.TFacts, Now: c.Now, Rules: c.Rules, Overlap: c.Overlap}
 	if res.TFacts == nil {
 		res.TFacts = [][]any{}
 	}
@@ -233,6 +240,17 @@ func runTEval(c TCase, repeat int) TResult {
 	texts := []struct{ name, text string }{
 		{"asis", res.Text},
 		{"reversed", tprogramText(c, revOrder(len(c.Rules)), revOrder(len(c.TFacts)))},
+	}
+	if perms > 0 {
+		h := int64(c.Now)
+		for _, b := range []byte(res.Text) {
+			h = h*131 + int64(b)
+		}
+		prnd := rand.New(rand.NewSource(h))
+		for k := 0; k < perms; k++ {
+			texts = append(texts, struct{ name, text string }{fmt.Sprintf("perm%d", k),
+				tprogramText(c, prnd.Perm(len(c.Rules)), prnd.Perm(len(c.TFacts)))})
+		}
 	}
 	idx := map[string]int{}
 	n := 0
@@ -266,12 +284,13 @@ func runTEval(c TCase, repeat int) TResult {
 func cmdTEval(args []string) error {
 	f := parseFlags(args)
 	repeat := f.int("repeat", 2)
+	perms := f.int("perms", 0)
 	return parallelMap(f.str("in", "-"), f.str("out", "-"), f.int("workers", 0), func(line []byte) (any, error) {
 		var c TCase
 		if err := jsonDecode(line, &c); err != nil {
 			return nil, err
 		}
-		return runTEval(c, repeat), nil
+		return runTEvalPerms(c, repeat, perms), nil
 	})
 }
 
